@@ -229,7 +229,10 @@ def run(sim, params):
             """Execute op on path object P; normalise the result relative to root."""
             def rel(x):
                 s = str(x)
-                return os.path.relpath(s, root) if s == root or s.startswith(root + "/") else "<OUTSIDE>" + s
+                base = os.path.dirname(os.path.dirname(root))
+                if s == root or s.startswith(root + "/"):
+                    return os.path.relpath(s, root)
+                return "<OUTSIDE>" + (s[len(base):] if s.startswith(base + "/") else s).replace("/ltree", "/<tree>").replace("/rtree", "/<tree>")
 
             if op in ("exists", "is_file", "is_dir", "is_symlink", "size", "checksum"):
                 return await getattr(P, op)()
@@ -286,6 +289,10 @@ def run(sim, params):
                 parts = pick_path(lroot, "path", want="new" if op in ("mkdir", "symlink_to", "hardlink_to") and t.draw(4, "path.new") else "any")
                 args = {}
                 ncls = name_class(parts)
+                if parts == () and op in ("rmtree", "symlink_to", "hardlink_to", "write_text", "chmod"):
+                    # replacing or removing the client's own root directory makes every later comparison a comparison of
+                    # the harness's base directories, not of the code under test
+                    op = "exists"
                 if op == "mkdir":
                     args = {"mode": (0o777, 0o755, 0o700)[t.draw(3, "mkdir.mode")], "parents": bool(t.draw(2, "mkdir.parents")), "exist_ok": bool(t.draw(2, "mkdir.exist_ok"))}
                 elif op == "write_text":
